@@ -593,6 +593,7 @@ def run(ctx):
         for dv in devs:
             sig, what = DEVIATIONS[dv]
             ctx.violation(sig, what, {'job': list(jobs[i][1:]), 'trace': traces[i], 'info': v.rejected[i]})
+    tlc.finish_diagnosis(wd, 'HwRulesTraceMC', 'Trace.cfg', traces, v, skip=set(explained))
     for i, info in sorted(v.rejected.items()):
         if i in explained or info.get('line') is None:
             continue
